@@ -57,6 +57,7 @@ type tspec struct {
 	name      string
 	schema    *msch
 	gen       func(rng *vk.Rand) interface{}
+	minimal   func(rng *vk.Rand) interface{} // degenerate content: only what constructor + CheckValidity insist on
 	empty     func() interface{}
 	intercept func(buf []byte, m marshal.Marshalizer) (interceptedData, error)
 }
@@ -374,33 +375,75 @@ func (e *env) genSCR(rng *vk.Rand) interface{} {
 	return s
 }
 
+// minimal (degenerate) objects: every field that the constructors + CheckValidity do not insist on is left at
+// its default value. The all-default miniblock has an EMPTY canonical encoding (Size() == 0).
+func (e *env) minHeader(rng *vk.Rand) interface{} {
+	h := &block.Header{PrevHash: rng.Bytes(32), PrevRandSeed: rng.Bytes(48), RootHash: rng.Bytes(32)}
+	if err := e.signHeader(h); err != nil {
+		panic(err)
+	}
+	return h
+}
+
+func (e *env) minMeta(rng *vk.Rand) interface{} {
+	h := &block.MetaBlock{PrevHash: rng.Bytes(32), PrevRandSeed: rng.Bytes(48), RootHash: rng.Bytes(32)}
+	if err := e.signHeader(h); err != nil {
+		panic(err)
+	}
+	return h
+}
+
+func (e *env) minMiniBlock(rng *vk.Rand) interface{} { return &block.MiniBlock{} }
+
+func (e *env) minTx(rng *vk.Rand) interface{} {
+	k := rng.Intn(len(e.edSks))
+	tx := &transaction.Transaction{Value: big.NewInt(0), RcvAddr: rng.Bytes(32), SndAddr: append([]byte(nil), e.edPks[k]...), ChainID: []byte("1"), Version: 1}
+	b, err := tx.GetDataForSigning(e.pubConv, e.signMsh)
+	if err != nil {
+		panic(err)
+	}
+	tx.Signature, err = e.edSigner.Sign(e.edSks[k], b)
+	if err != nil {
+		panic(err)
+	}
+	return tx
+}
+
+func (e *env) minRewardTx(rng *vk.Rand) interface{} {
+	return &rewardTx.RewardTx{Value: big.NewInt(0), RcvAddr: rng.Bytes(32)}
+}
+
+func (e *env) minSCR(rng *vk.Rand) interface{} {
+	return &smartContractResult.SmartContractResult{Value: big.NewInt(0), RcvAddr: rng.Bytes(32), SndAddr: rng.Bytes(32), PrevTxHash: rng.Bytes(32)}
+}
+
 func (e *env) specs() []*tspec {
 	txVer := versioning.NewTxVersionChecker(1)
 	return []*tspec{
-		{name: "Header", schema: schemaOf(reflect.TypeOf(block.Header{})), gen: e.genHeader, empty: func() interface{} { return &block.Header{} },
+		{name: "Header", schema: schemaOf(reflect.TypeOf(block.Header{})), gen: e.genHeader, minimal: e.minHeader, empty: func() interface{} { return &block.Header{} },
 			intercept: func(buf []byte, m marshal.Marshalizer) (interceptedData, error) {
 				return interceptedBlocks.NewInterceptedHeader(&interceptedBlocks.ArgInterceptedBlockHeader{HdrBuff: buf, Marshalizer: m, Hasher: e.hasher,
 					ShardCoordinator: e.coord, HeaderSigVerifier: e.hsv, HeaderIntegrityVerifier: e.hdrIntegr, ValidityAttester: e.attester, EpochStartTrigger: e.epochStart})
 			}},
-		{name: "MetaBlock", schema: schemaOf(reflect.TypeOf(block.MetaBlock{})), gen: e.genMeta, empty: func() interface{} { return &block.MetaBlock{} },
+		{name: "MetaBlock", schema: schemaOf(reflect.TypeOf(block.MetaBlock{})), gen: e.genMeta, minimal: e.minMeta, empty: func() interface{} { return &block.MetaBlock{} },
 			intercept: func(buf []byte, m marshal.Marshalizer) (interceptedData, error) {
 				return interceptedBlocks.NewInterceptedMetaHeader(&interceptedBlocks.ArgInterceptedBlockHeader{HdrBuff: buf, Marshalizer: m, Hasher: e.hasher,
 					ShardCoordinator: e.coord, HeaderSigVerifier: e.hsv, HeaderIntegrityVerifier: e.hdrIntegr, ValidityAttester: e.attester, EpochStartTrigger: e.epochStart})
 			}},
-		{name: "MiniBlock", schema: schemaOf(reflect.TypeOf(block.MiniBlock{})), gen: e.genMiniBlock, empty: func() interface{} { return &block.MiniBlock{} },
+		{name: "MiniBlock", schema: schemaOf(reflect.TypeOf(block.MiniBlock{})), gen: e.genMiniBlock, minimal: e.minMiniBlock, empty: func() interface{} { return &block.MiniBlock{} },
 			intercept: func(buf []byte, m marshal.Marshalizer) (interceptedData, error) {
 				return interceptedBlocks.NewInterceptedMiniblock(&interceptedBlocks.ArgInterceptedMiniblock{MiniblockBuff: buf, Marshalizer: m, Hasher: e.hasher, ShardCoordinator: e.coord})
 			}},
-		{name: "Transaction", schema: schemaOf(reflect.TypeOf(transaction.Transaction{})), gen: e.genTx, empty: func() interface{} { return &transaction.Transaction{} },
+		{name: "Transaction", schema: schemaOf(reflect.TypeOf(transaction.Transaction{})), gen: e.genTx, minimal: e.minTx, empty: func() interface{} { return &transaction.Transaction{} },
 			intercept: func(buf []byte, m marshal.Marshalizer) (interceptedData, error) {
 				return txproc.NewInterceptedTransaction(buf, m, e.signMsh, e.hasher, e.edKg, e.edSigner, e.pubConv, e.coord, &mock.FeeHandlerStub{},
 					&testscommon.WhiteListHandlerStub{}, &mock.ArgumentParserMock{}, []byte("1"), false, e.hasher, txVer)
 			}},
-		{name: "RewardTx", schema: schemaOf(reflect.TypeOf(rewardTx.RewardTx{})), gen: e.genRewardTx, empty: func() interface{} { return &rewardTx.RewardTx{} },
+		{name: "RewardTx", schema: schemaOf(reflect.TypeOf(rewardTx.RewardTx{})), gen: e.genRewardTx, minimal: e.minRewardTx, empty: func() interface{} { return &rewardTx.RewardTx{} },
 			intercept: func(buf []byte, m marshal.Marshalizer) (interceptedData, error) {
 				return rewardTransaction.NewInterceptedRewardTransaction(buf, m, e.hasher, e.pubConv, e.coord)
 			}},
-		{name: "UnsignedTx", schema: schemaOf(reflect.TypeOf(smartContractResult.SmartContractResult{})), gen: e.genSCR, empty: func() interface{} { return &smartContractResult.SmartContractResult{} },
+		{name: "UnsignedTx", schema: schemaOf(reflect.TypeOf(smartContractResult.SmartContractResult{})), gen: e.genSCR, minimal: e.minSCR, empty: func() interface{} { return &smartContractResult.SmartContractResult{} },
 			intercept: func(buf []byte, m marshal.Marshalizer) (interceptedData, error) {
 				return unsigned.NewInterceptedUnsignedTransaction(buf, m, e.hasher, e.pubConv, e.coord)
 			}},
@@ -424,11 +467,12 @@ func run(t *tspec, buf []byte, m marshal.Marshalizer) (hash []byte, ctorErr erro
 func main() {
 	logger.SetLogLevel("*:NONE")
 	r := vk.Start("C18")
-	r.Rule("per case one valid object of one intercepted type (round-robin over Header, MetaBlock, MiniBlock, Transaction, RewardTx, UnsignedTx; headers carry real BLS group/leader/randomness signatures, transactions a real ed25519 signature; optional fields are left empty with probability 1/3 so that default-valued fields exist), its canonical gogo-proto encoding E, and for each of 8 mutation classes several non-canonical encodings E' (random position / nesting depth <= 2). A mutant is non-trivial when it differs from E, decodes, and re-marshals to exactly E (same content); shape = (type, class, sub-kind, depth, verdict with size check, verdict without).")
+	r.Rule("per case one valid object of one intercepted type (round-robin over Header, MetaBlock, MiniBlock, Transaction, RewardTx, UnsignedTx; headers carry real BLS group/leader/randomness signatures, transactions a real ed25519 signature; optional fields are left empty with probability 1/3 so that default-valued fields exist), its canonical gogo-proto encoding E, and for each of 8 mutation classes several non-canonical encodings E' (random position / nesting depth <= 2). Every fifth object of a type is MINIMAL: only the fields that constructor + CheckValidity insist on are set (the all-default miniblock has an empty canonical encoding, refused by the constructor; its reference is the first accepted mutant). A mutant is non-trivial when it differs from E, decodes, and re-marshals to exactly E (same content); shape = (type, class, sub-kind, depth, verdict with size check, verdict without).")
 	r.Assume("content equality = byte equality of the canonical re-encoding of the decoded object (this is also what header signatures are computed over)",
 		"accepted = constructor returned no error and CheckValidity() == nil, with stubs for header integrity (version/chain id), validity attester, epoch start trigger, fee handler and white lists; signature checks are real",
 		"production wiring: SizeCheckUnmarshalizer(GogoProtoMarshalizer, delta=10); 'sizecheck=off' is the wiring with SizeCheckDelta = 0",
-		"a witness under sizecheck=off is only reported when the same bytes were rejected with the size check on (otherwise it is the same witness)")
+		"a witness under sizecheck=off is only reported when the same bytes were rejected with the size check on (otherwise it is the same witness)",
+		"a mutant of another class that outgrows the size-check tolerance (always the case for the all-default miniblock, tolerance 0) is judged under the production wiring only, key class=growth-beyond-delta")
 	r.MinShapes(60)
 
 	e, err := newEnv(r.Seed)
@@ -449,23 +493,52 @@ func main() {
 	r.Parallel(nCases, func(c *vk.Case) {
 		rng := c.Rng
 		t := specs[c.Idx%len(specs)]
-		obj := t.gen(rng)
+		degenerate := (c.Idx/len(specs))%5 == 4
+		var obj interface{}
+		if degenerate {
+			obj = t.minimal(rng)
+		} else {
+			obj = t.gen(rng)
+		}
 		E, err := e.plain.Marshal(obj)
 		if err != nil {
 			r.Inconclusive("cannot marshal generated " + t.name + ": " + err.Error())
 			return
 		}
+		// reference hash per wiring = hash of the first ACCEPTED encoding of this content: the canonical one, or
+		// (all-default content has an empty canonical encoding, which the constructors refuse) the first accepted mutant
 		hOn, ce, ve := run(t, E, e.onM)
 		hOff, ce2, ve2 := run(t, E, e.plain)
-		if ce != nil || ve != nil || ce2 != nil || ve2 != nil {
-			r.Inconclusive(fmt.Sprintf("canonical %s rejected: %v / %v / %v / %v", t.name, ce, ve, ce2, ve2))
-			return
-		}
-		r.Count("canonical_accepted:"+t.name, 1)
-		if !bytes.Equal(hOn, hOff) {
-			r.Violation(c.Idx, "hash-depends-on-marshalizer type="+t.name, "canonical bytes hash differently with/without size check", nil)
+		var refOn, refOff []byte
+		if len(E) == 0 {
+			r.Count("empty_canonical_encoding:"+t.name, 1)
+			if ce == nil && ve == nil {
+				refOn = hOn
+			}
+			if ce2 == nil && ve2 == nil {
+				refOff = hOff
+			}
+		} else {
+			if ce != nil || ve != nil || ce2 != nil || ve2 != nil {
+				r.Inconclusive(fmt.Sprintf("canonical %s (degenerate=%v) rejected: %v / %v / %v / %v", t.name, degenerate, ce, ve, ce2, ve2))
+				return
+			}
+			refOn, refOff = hOn, hOff
+			r.Count("canonical_accepted:"+t.name, 1)
+			if degenerate {
+				r.Count("canonical_accepted_minimal:"+t.name, 1)
+			}
+			if !bytes.Equal(hOn, hOff) {
+				r.Violation(c.Idx, "hash-depends-on-marshalizer type="+t.name, "canonical bytes hash differently with/without size check", nil)
+			}
 		}
 		maxSize := len(E) + len(E)*sizeCheckDelta/100
+		short := func(h []byte) string {
+			if len(h) > 6 {
+				h = h[:6]
+			}
+			return vk.Hex(h)
+		}
 
 		// secondary oracle: different content, same hash
 		if fs, perr := parseMsg(E); perr == nil && len(fs) > 0 {
@@ -499,26 +572,30 @@ func main() {
 		for _, class := range allClasses {
 			for a := 0; a < attempts; a++ {
 				ctx := &mutCtx{rng: rng, class: class, topSize: len(E), unkMode: a % 4, maxDepth: 2}
+				if len(E) < 16 && a == attempts-1 {
+					ctx.unkMode = 3 // tiny / empty objects: always try a sizeable blob of junk too
+				}
 				Em, sub, depth := mutate(E, t.schema, ctx, 0)
 				if sub == "" || Em == nil {
 					r.Count("no_mutation_site:"+class, 1)
 					continue
 				}
 				cls := class
+				onlyOn := false
 				if class == clsUnknown {
 					if len(Em) <= maxSize {
 						cls = "unknown-field-within-delta"
 					} else {
 						cls = "unknown-field-beyond-delta"
 					}
+				} else if len(Em) > maxSize {
+					// growth beyond the size-check tolerance by another class (e.g. explicit zero values on a tiny or
+					// all-default object): only the production wiring is judged; without the size check it is the
+					// same witness as the class itself
+					cls = "growth-beyond-delta"
+					onlyOn = true
 				}
 				if bytes.Equal(Em, E) {
-					r.Trivial()
-					continue
-				}
-				if class != clsUnknown && len(Em) > maxSize {
-					// growth beyond the size-check delta is the business of unknown-field-beyond-delta only
-					r.Count("mutant_beyond_delta_skipped:"+cls, 1)
 					r.Trivial()
 					continue
 				}
@@ -536,21 +613,38 @@ func main() {
 				}
 				// Em is a non-canonical encoding of the same content
 				r.Eval(1)
-				hmOn, cOn, vOn := run(t, Em, e.onM)
-				hmOff, cOff, vOff := run(t, Em, e.plain)
-				accOn := cOn == nil && vOn == nil
-				accOff := cOff == nil && vOff == nil
-				verd := func(acc bool, h []byte, ref []byte) string {
+				verd := func(acc bool, h []byte, ref *[]byte) string {
 					if !acc {
 						return "rejected"
 					}
-					if bytes.Equal(h, ref) {
+					if *ref == nil {
+						*ref = h
+						return "first-accepted"
+					}
+					if bytes.Equal(h, *ref) {
 						return "same-hash"
 					}
 					return "other-hash"
 				}
-				vOnS, vOffS := verd(accOn, hmOn, hOn), verd(accOff, hmOff, hOff)
-				r.Shape(fmt.Sprintf("%s %s %s d%d on:%s off:%s", t.name, cls, sub, depth, vOnS, vOffS))
+				hmOn, cOn, vOn := run(t, Em, e.onM)
+				accOn := cOn == nil && vOn == nil
+				refOnBefore := refOn
+				vOnS := verd(accOn, hmOn, &refOn)
+				var hmOff []byte
+				var cOff, vOff error
+				accOff := false
+				vOffS := "not-run"
+				if !onlyOn {
+					hmOff, cOff, vOff = run(t, Em, e.plain)
+					accOff = cOff == nil && vOff == nil
+					vOffS = verd(accOff, hmOff, &refOff)
+				}
+				dg := ""
+				if degenerate {
+					dg = " minimal"
+					r.Count(fmt.Sprintf("minimal:%s|%s|on:%s off:%s", t.name, cls, vOnS, vOffS), 1)
+				}
+				r.Shape(fmt.Sprintf("%s%s %s %s d%d on:%s off:%s", t.name, dg, cls, sub, depth, vOnS, vOffS))
 				r.Count("on:"+vOnS, 1)
 				r.Count("off:"+vOffS, 1)
 				r.Count(fmt.Sprintf("%s|%s|on:%s", t.name, cls, vOnS), 1)
@@ -558,20 +652,20 @@ func main() {
 					r.Count("on_rejected_other_reason", 1)
 				}
 				detail := map[string]interface{}{
-					"type": t.name, "class": cls, "sub_kind": sub, "depth": depth, "canonical": vk.Hex(E), "mutant": vk.Hex(Em),
+					"type": t.name, "class": cls, "mutation": class, "sub_kind": sub, "depth": depth, "canonical": vk.Hex(E), "mutant": vk.Hex(Em), "minimal_object": degenerate,
 					"canonical_len": len(E), "mutant_len": len(Em), "max_size_with_delta": maxSize,
-					"hash_canonical": vk.Hex(hOn), "hash_mutant_sizecheck_on": vk.Hex(hmOn), "hash_mutant_sizecheck_off": vk.Hex(hmOff),
+					"hash_reference_sizecheck_on": vk.Hex(refOnBefore), "hash_mutant_sizecheck_on": vk.Hex(hmOn), "hash_mutant_sizecheck_off": vk.Hex(hmOff),
 					"sizecheck_on": fmt.Sprintf("ctor=%v validity=%v", cOn, vOn), "sizecheck_off": fmt.Sprintf("ctor=%v validity=%v", cOff, vOff),
 				}
 				if vOnS == "other-hash" {
 					r.Violation(c.Idx, fmt.Sprintf("type=%s class=%s", t.name, cls),
-						fmt.Sprintf("%s: %d-byte canonical and %d-byte %s/%s encoding of the same content both accepted (size check on), hashes %x.. vs %x..", t.name, len(E), len(Em), cls, sub, hOn[:6], hmOn[:6]), detail)
+						fmt.Sprintf("%s: two accepted encodings of the same content (%d-byte canonical form; this one %d bytes, %s/%s, size check on; tolerance %d bytes), hashes %s.. vs %s..", t.name, len(E), len(Em), class, sub, maxSize, short(refOnBefore), short(hmOn)), detail)
 				}
 				if vOffS == "other-hash" && !accOn {
 					r.Violation(c.Idx, fmt.Sprintf("type=%s class=%s sizecheck=off", t.name, cls),
-						fmt.Sprintf("%s: %d-byte canonical and %d-byte %s/%s encoding of the same content both accepted (size check off only), hashes differ", t.name, len(E), len(Em), cls, sub), detail)
+						fmt.Sprintf("%s: two accepted encodings of the same content (%d-byte canonical form; this one %d bytes, %s/%s; size check off only), hashes differ", t.name, len(E), len(Em), class, sub), detail)
 				}
-				if accOn && !accOff {
+				if !onlyOn && accOn && !accOff {
 					r.Violation(c.Idx, "accepted-only-with-sizecheck type="+t.name, "size-checking marshalizer accepted what the plain one rejected", detail)
 				}
 				if r.NeedSample() && vOnS == "other-hash" && len(E) < 80 {
@@ -580,5 +674,8 @@ func main() {
 			}
 		}
 	})
+	if r.Counter("empty_canonical_encoding:MiniBlock") == 0 && r.ReplayCase < 0 {
+		r.Inconclusive("no all-default miniblock was generated")
+	}
 	r.Finish()
 }
